@@ -40,6 +40,33 @@ CLAIMS["C04"] = dict(
         "squitters, bursts, heavy patterns, injected into histories).",
    technique="Lean 4 proof (linearity and injectivity of the CRC register map; decide over the 111 double-bit distances) + correspondence", ref="5.4")
 
+CLAIMS["C05"] = dict(
+   text="Lean 4 theorems (Props/C05.lean): for DF4/DF20 with M=0 and Q=1 or the all-zero code, and for TC 9-18 with Q=1, the row altitude is "
+        "25*N-1000 ft (none if negative) of the altitude field - all 8192 / 4096 codes enumerated in the kernel and lifted over the other bits; "
+        "depends on the field only; row effect on both update paths. The Q=0 (Gillham) branch is a genuine defect that cannot be repaired "
+        "without editing pinned tests: it is a KNOWN FINDING (two entries), with the machine-checked witness gillham_branch_wrong; the full-strength "
+        "statements FullDF4_20 / FullTC9_18 stay visible. The check compares every code in every carrying format with the Annex 10 spec and "
+        "reports any failing input that is not exactly the recorded legacy behaviour.",
+   note="trusted: Lean kernel and standard axioms; ma_code extractor; harness; Spec/Altitude.lean incl. Gillham table reading; "
+        "known/C05_gillham_legacy.txt identifies the listed failing inputs. Modelled, not verified: f32 multiply of the metric branch (unconstrained by C05).",
+   technique="Lean 4 proof (partial: Q=1 and zero code; decide +kernel over the whole field) + exhaustive model/implementation/spec comparison; known finding for Q=0", ref="5.5")
+CLAIMS["C07"] = dict(
+   text="Lean 4 theorems (Props/C07.lean): ais m = the letters/digits among the eight 6-bit fields of bits 41..88, in order, for every 112-bit frame "
+        "(nibble slicing = bit fields by a general lemma, character set by enumeration of all 64 codes); wake letters for all 32x8 pairs; an "
+        "identification squitter sets callsign and category on both update paths and as creating frame; BDS 2,0 sets the callsign exactly under "
+        "the capability gate. Correspondence: every code in every position, TC1-4 x CA0-7, BDS 2,0 via DF20/21 under capability 0..7 x -R.",
+   note="trusted: Lean kernel and standard axioms; harness; Spec/Ident.lean. W/CALLSIGN cells are covered by the rendering model (C14).",
+   technique="Lean 4 proof (field lemmas + finite enumeration) + model/implementation correspondence", ref="5.7")
+CLAIMS["C09"] = dict(
+   text="Lean 4 theorems (Props/C09.lean), for every atan2deg function: trackAndGroundspeed and verticalRate are the specification's functions of "
+        "the six velocity fields (field 0 = no value, magnitude = field-1, sign bits, x4 supersonic, Nat.sqrt), depend on those fields only, reach "
+        "the row identically on the default and the -U path and as creating frame; 4*isqrt is within 4 kt. Correspondence and oracle: stratified "
+        "field grid with all boundaries and the exact 45-degree directions, all vertical-rate codes; track checked against a 60-digit atan2.",
+   note="trusted: Lean kernel and standard axioms; harness. Modelled, not verified: f64 sqrt (exact for arguments < 2^22) and atan2/to_degrees/floor "
+        "(parameter of the model; the implementation's value is compared with an exact evaluation on every generated frame). The track of a zero "
+        "velocity vector is unconstrained (the code returns atan2 of signed zeros).",
+   technique="Lean 4 proof (structural, parametric in atan2deg) + model/implementation correspondence + exact-arithmetic oracle", ref="5.9")
+
 NOT_YET = "check not built yet in this revision; listed so that the manifest stays truthful while the framework grows"
 
 def main():
